@@ -507,6 +507,8 @@ class Walker:
         kws = {k.arg: self.ev(k.value, env) for k in c.keywords}
         if any(k.arg is None for k in c.keywords):
             kws.pop(None, None)
+        if isinstance(f, ast.Name) and name in getattr(self, "local_defs", {}):
+            return self.inline_local(c, self.local_defs[name], args, kws, env)
         if isinstance(f, ast.Name) and name not in env:
             r = self.mi.resolve_func(name)
             if r is not None:
@@ -586,6 +588,22 @@ class Walker:
             else:
                 out |= frozenset([p])
         return out or FRESH
+
+    def inline_local(self, c, h, args, kws, env):
+        mi, fn = h
+        if self.depth > 4:
+            raise Abort("helper inlining too deep")
+        bound = dict(env)
+        bound.update(self.bind_args(c, fn, args, kws, skip_self=False))
+        saved = (self.fx, self.ret, self.mi, self.depth)
+        self.fx, self.ret, self.mi, self.depth = [], frozenset(), mi, self.depth + 1
+        try:
+            sk = self.block(list(fn.body), bound, 0)
+            ret = self.ret
+        finally:
+            self.fx, self.ret, self.mi, self.depth = saved
+        self.fx.append(sk)
+        return ret or IMM
 
     def inline(self, c, h, env):
         mi, fn = h
@@ -754,6 +772,12 @@ class Walker:
             fin = self.block(list(s.finalbody), env, loop) if s.finalbody else SKIP
             return seq([a, hs, fin])
         if isinstance(s, (ast.Import, ast.ImportFrom)):
+            return SKIP
+        if isinstance(s, ast.FunctionDef) and not s.decorator_list:
+            # a local helper function: calls to it are inlined with the environment of the call site as its closure
+            if not hasattr(self, "local_defs"):
+                self.local_defs = {}
+            self.local_defs[s.name] = (self.mi, s)
             return SKIP
         raise Abort(f"statement {type(s).__name__} at line {s.lineno}")
 
